@@ -239,14 +239,16 @@ def renderItem : FItem → List Char
 def renderFormat (items : List FItem) : List Char := items.flatMap renderItem
 
 def wordB (w : List Char) : Bool := !w.isEmpty && w.all isWord
+/-- a counter name as the author writes it inside `${…}`: non-empty, no blanks, dots, braces or `$` (e.g. `main-thm`) -/
+def nameB (w : List Char) : Bool := !w.isEmpty && w.all fun c => isNameChar c && c != '$'
 
-/-- well-formed items: names and representations are non-empty words, literal text is non-empty, contains no `$`,
+/-- well-formed items: names are non-empty counter names, representations non-empty words, literal text is non-empty, contains no `$`,
     and two literal texts are not adjacent (they would be one) -/
 def wfItems : List FItem → Bool
   | [] => true
   | .text s :: rest =>
     !s.isEmpty && s.all (· != '$') && (match rest with | .text _ :: _ => false | _ => true) && wfItems rest
-  | .ref n fm :: rest => wordB n && (match fm with | none => true | some f => wordB f) && wfItems rest
+  | .ref n fm :: rest => nameB n && (match fm with | none => true | some f => wordB f) && wfItems rest
 
 def FItem.toPiece : FItem → Piece
   | .text s => .lit (String.ofList s)
